@@ -64,13 +64,13 @@ MIN_EVENTS = {
               'toolbox_evals': 5000, 'pubkey_evals': 2000, 'ecdh_evals': 4000,
               'ecdh_symmetry_checks': 2000, 'invalid_keys_offered': 1500,
               'valid_keys_accepted': 500, 'rpa_generated': 2000, 'rpa_unrelated_checked': 2000,
-              'vectors_checked': 80, 'entropy_keys': 100, 'session_keys_offered': 40},
+              'vectors_checked': 80, 'entropy_keys': 100, 'session_keys_offered': 150},
     'thorough': {'e_evals': 50000, 'cmac_evals': 20000, 'cmac_exhaustive_lengths': 81 * 8,
                  'toolbox_evals': 50000, 'pubkey_evals': 100000, 'ecdh_evals': 200000,
                  'ecdh_symmetry_checks': 100000, 'invalid_keys_offered': 15000,
                  'valid_keys_accepted': 5000, 'rpa_generated': 20000,
                  'rpa_unrelated_checked': 20000, 'vectors_checked': 80, 'entropy_keys': 5000,
-                 'session_keys_offered': 400},
+                 'session_keys_offered': 1500},
 }
 EXHAUSTIVE_NOTE = ('CMAC message lengths 0..80 for 8 keys covering all four (msb(L), msb(K1)) '
                    'sub-key paths; all 128 single-bit keys and blocks of e; every byte value at '
@@ -93,7 +93,7 @@ def plan(tier, seed):
         cases.append({'kind': 'aes', 'seed': base + i, 'n': 400 if q else 800})
     for i in range(8):
         cases.append({'kind': 'cmac-exh', 'seed': base + i, 'key_class': i})
-    for i in range(16 if q else 160):
+    for i in range(16 if q else 240):
         cases.append({'kind': 'cmac-rand', 'seed': base + i, 'n': 80})
     for i in range(16 if q else 160):
         cases.append({'kind': 'toolbox', 'seed': base + i, 'rounds': 60})
@@ -103,8 +103,8 @@ def plan(tier, seed):
         cases.append({'kind': 'points', 'seed': base + i, 'n': 40})
     for i in range(32 if q else 320):
         cases.append({'kind': 'invalid', 'seed': base + i, 'n': 60})
-    for i in range(4 if q else 40):
-        cases.append({'kind': 'session', 'seed': base + i, 'n': 12})
+    for i in range(8 if q else 80):
+        cases.append({'kind': 'session', 'seed': base + i, 'n': 24})
     for i in range(16 if q else 160):
         cases.append({'kind': 'rpa', 'seed': base + i, 'n': 80})
     return cases
@@ -734,14 +734,17 @@ def run_session(case, r: R):
             x, y = gen_valid_point(rng)
             xb, yb, kind = b32(x), b32(y), 'valid'
         else:
-            xb, yb, cls, kind, x, y = gen_invalid_key(rng)
-            if len(xb) != 32:
-                xb, yb, cls, kind, x, y = bytes(32), bytes(32), 'off-curve', 'zero', 0, 0
+            want_cls = ('off-curve', 'out-of-range', 'noncanonical')[(i // 4) % 3]
+            while True:
+                xb, yb, cls, kind, x, y = gen_invalid_key(rng)
+                if cls == want_cls and len(xb) == 32:
+                    break
         with patched(bn):
             device = Device()
             session = smp.Session(device.smp_manager, mock.MagicMock(), PairingConfig(), False)
             sent = []
             session.send_command = sent.append
+            session.connection.cancel_on_disconnection = lambda aw: aw.close()  # mock link: nothing to await
             d = private_value(bn, session.ecc_key)
             cmd = smp.SMP_Pairing_Public_Key_Command(public_key_x=xb[::-1], public_key_y=yb[::-1])
             session.on_smp_command(cmd)
@@ -861,9 +864,10 @@ LEVEL_TEXT = ('Three-way differential monitoring: bumble.crypto.builtin and bumb
               'imported side by side and each of e, aes_cmac, c1, s1, f4, f5, f6, g2, h6, h7, ah, public-key '
               'derivation and ECDH is evaluated by both on the same generated input next to an independent '
               'reference (FIPS-197/RFC 4493/Core Vol 3 Part H written from the specification, affine P-256 on '
-              'ints), plus all published vectors. Quick: ~7x10^3 e, ~4x10^3 CMAC (lengths 0..80 exhaustive for '
-              '8 keys covering the four sub-key paths), ~9x10^3 toolbox, ~6x10^3 ECDH over ~1.5x10^3 scalar '
-              'pairs, ~2x10^3 invalid peer keys, ~2.5x10^3 RPAs; thorough ~2x10^5 ECDH. Held = no refuting '
+              'ints), plus all published vectors. Quick: 1.5x10^4 e, 4.5x10^3 CMAC (lengths 0..80 exhaustive for '
+              '8 keys covering the four sub-key paths), 8.6x10^3 toolbox, 7.4x10^3 ECDH over 1.5x10^3 scalar '
+              'pairs and 640 lifted points, 1.9x10^3 invalid peer keys offered to each back end, ~190 keys '
+              'through smp.Session, 2.5x10^3 RPAs; thorough 2.2x10^5 ECDH, 1.9x10^4 invalid keys. Held = no refuting '
               'input among those evaluated; this is sampling of a 2^256-sized space, not proof.')
 LEVEL_NOTE = ('Trusted: vlib/ref_smpcrypto.py and vlib/ref_p256.py (self-tested against every published vector '
               'at shard start), CPython big ints, OpenSSL behind the cryptography wheel (it is one of the two '
